@@ -20,7 +20,7 @@ ASSUMPTIONS = [
 ]
 BUDGET = {"quick": 85, "thorough": 900}
 ROUNDS = {"thorough": 16}
-FLOORS = {"derivatives_compared": {"quick": 4000, "thorough": 40000}, "nonzero_derivatives": {"quick": 800, "thorough": 8000}, "densities": 30, "with_rescaling": 20}
+FLOORS = {"derivatives_compared": {"quick": 4000, "thorough": 40000}, "nonzero_derivatives": {"quick": 800, "thorough": 8000}, "densities": 30, "with_rescaling": 20, "switch_evaluations": {"quick": 4, "thorough": 16}}
 
 
 def cases(tier, seed):
@@ -28,16 +28,86 @@ def cases(tier, seed):
     out = []
     reps = 8 if tier == "quick" else 60
     for rep in range(reps):
-        for name in zoo.GRAPHS:
+        for name in zoo.DETERMINISTIC:
             g = zoo.build(name, 0)
             for e in g["evals"]:
                 out.append({"graph": name, "eval": e, "seed": int(rng.integers(2**31)), "rescale": bool(e.startswith("like") and rep % 2 == 1)})
+    # trees large enough to underflow: gradient of the evaluation that switches to rescaling, and of the one after it
+    models = ["JC69", "HKY", "GTR+W4", "HKY-states"]
+    for i in range(6 if tier == "quick" else 24):
+        cfg = {"shape": ["caterpillar", "balanced", "random"][i % 3], "model": models[i % 4], "scale": float([0.5, 1.0, 3.0][i % 3]), "target": float([-330.0, -400.0][i % 2]),
+               "seed": int(rng.integers(2**31)), "nsites": 2, "history": False, "batch": False}
+        out.insert(i, {"config": cfg, "seed": int(rng.integers(2**31))})
     return out
+
+
+def run_switch_case(case):
+    """Gradient taken from the very evaluation that detects the underflow and switches to rescaling (and from the
+    following, rescaled, evaluation), against finite differences of the (path-independent, see C03) value."""
+    import torch
+    from . import c03
+    from ..gen import phylo
+
+    V = []
+    C = {"derivatives_compared": 0, "nonzero_derivatives": 0, "switch_evaluations": 0, "densities": ["switch:" + case["config"]["model"]], "with_rescaling": 0}
+    cfg = case["config"]
+    import sys
+
+    sys.setrecursionlimit(50000)
+    N = c03.locate(cfg)[0]
+    c = c03.make(cfg, N)
+    rng = np.random.default_rng(case["seed"])
+    for which in ("switching", "after"):
+        objs, dic = tt.load(phylo.likelihood_json(c))
+        like, blp = dic["like"], dic["tree.blens"]
+        if which == "after":
+            with torch.no_grad():
+                like()
+            blp.tensor = blp.tensor.detach().clone()  # change notification: the next call recomputes, now rescaled
+        r_before = bool(like.rescale)
+        blp.requires_grad = True
+        val = like().sum()
+        if not torch.isfinite(val):
+            continue
+        val.backward()
+        if which == "switching" and (r_before or not like.rescale):
+            C["switch_not_reached"] = C.get("switch_not_reached", 0) + 1
+            continue
+        C["switch_evaluations" if which == "switching" else "with_rescaling"] += 1
+        grad = blp.grad.detach().clone().numpy().reshape(-1)
+        base = blp.tensor.detach().clone()
+        idxs = rng.choice(base.numel(), size=3, replace=False)
+        for idx in idxs:
+            idx = int(idx)
+            h = 1e-4 * max(1.0, float(base[idx]))
+
+            def f(delta):
+                x = base.clone()
+                x[idx] += delta
+                blp.tensor = x
+                with torch.no_grad():
+                    return float(like().sum())
+
+            d1 = (f(h) - f(-h)) / (2 * h)
+            d2 = (f(h / 2) - f(-h / 2)) / h
+            fd = (4 * d2 - d1) / 3
+            C["derivatives_compared"] += 1
+            if abs(fd) > 1e-7:
+                C["nonzero_derivatives"] += 1
+            gv = float(grad[idx])
+            if not np.isfinite(gv) or abs(gv - fd) > 1e-5 * max(1.0, abs(gv), abs(fd)):
+                V.append(tt.viol("C12:wrong-gradient:underflow-%s-evaluation:%s" % (which, cfg["model"]), "%d taxa, %s: d logL / d branch[%d] back-propagated from the %s evaluation is %.10g, finite difference %.10g"
+                                 % (N, cfg["model"], idx, "switching (first, underflowing)" if which == "switching" else "rescaled", gv, fd), case=case, N=N, index=idx))
+                break
+        blp.tensor = base
+    return {"violations": V, "counters": C, "fingerprint": "switch|%s|%s|%d" % (cfg["shape"], cfg["model"], case["seed"]), "sample": None}
 
 
 def run_case(case):
     import torch
 
+    if "config" in case:
+        return run_switch_case(case)
     V = []
     g = zoo.build(case["graph"], case["seed"])
     e = case["eval"]
@@ -50,6 +120,10 @@ def run_case(case):
         if rng.random() < 0.5:
             shape = tuple(dic[pid].tensor.shape)
             dic[pid].tensor = torch.tensor(np.asarray(zoo.draw(rng, dom, shape), dtype=float).reshape(shape))
+        if dom == "positive" and dic[pid].tensor.numel() > 1 and rng.random() < 0.15:
+            # all entries equal (where optimisers and samplers are started): still an interior point, the density is smooth there
+            dic[pid].tensor = torch.full_like(dic[pid].tensor, float(np.exp(rng.normal(0.5, 0.5))))
+            C["tied_vectors"] = C.get("tied_vectors", 0) + 1
     if case["rescale"]:
         for i, o in dic.items():
             if hasattr(o, "rescale") and hasattr(o, "threshold"):
@@ -86,6 +160,20 @@ def run_case(case):
         d2 = (f_at(pid, idx, h / 2) - f_at(pid, idx, -h / 2)) / h
         return (4 * d2 - d1) / 3
 
+    # mechanism: the eigendecomposition route of the substitution models is not differentiable where the symmetrised rate
+    # matrix has repeated eigenvalues (e.g. all exchangeabilities equal); the back-propagated gradient of anything that goes
+    # through p_t is then NaN or arbitrary
+    from .c19 import repeated_eigenvalues
+
+    degenerate = (e.startswith("like") or e == "joint") and repeated_eigenvalues(dic, torch)
+    if degenerate:
+        C["points_with_repeated_eigenvalues"] = 1
+
+    def sig_for(kind, pid):
+        if degenerate:
+            return "C12:gradient-wrong-or-not-finite:repeated-eigenvalues-of-the-rate-matrix"
+        return "C12:%s-gradient:%s:%s:%s" % (kind, g["name"], e, pid)
+
     any_nonzero = False
     for pid in leaves:
         n = base[pid].numel()
@@ -101,6 +189,10 @@ def run_case(case):
             C["derivatives_compared"] += 1
             if not np.isfinite(fd):
                 continue
+            if not np.isfinite(gv):
+                V.append(tt.viol(sig_for("nonfinite", pid), "%s/%s: d/d %s[%d] back-propagated %s while the value is finite and the finite difference is %.10g"
+                                 % (g["name"], e, pid, idx, gv, fd), case=case, parameter=pid, index=idx, point=base[pid].reshape(-1)[:8].tolist()))
+                break
             tol = 1e-6 * max(1.0, abs(gv), abs(fd))
             if abs(gv - fd) > tol:
                 C["retried_smaller_step"] += 1
@@ -114,7 +206,7 @@ def run_case(case):
                 C["nonzero_derivatives"] += 1
             if abs(gv - fd) > tol and abs(gv - fd) > 1e-5 * max(1.0, abs(gv), abs(fd)):
                 kind = "missing" if (grads[pid] is None or gv == 0.0) else "wrong"
-                V.append(tt.viol("C12:%s-gradient:%s:%s:%s" % (kind, g["name"], e, pid), "%s/%s: d/d %s[%d] back-propagated %s, finite difference %.10g (rescale=%s)"
+                V.append(tt.viol(sig_for(kind, pid), "%s/%s: d/d %s[%d] back-propagated %s, finite difference %.10g (rescale=%s)"
                                  % (g["name"], e, pid, idx, "None" if grads[pid] is None else "%.10g" % gv, fd, case["rescale"]), case=case, parameter=pid, index=idx))
                 break
     fp = "%s|%s|%d|%s" % (g["name"], e, case["seed"], case["rescale"]) if any_nonzero else None
